@@ -62,30 +62,36 @@ pub fn slot_counter(heights: &[u32], slot: u64, salt: u64) -> (u64, &'static str
     }
 }
 
+/// The hash type the pure accounting functions are instantiated with (they are generic over it; the
+/// key blob length and the offsets of its fields depend on n).
+fn arith_hash(types: &[u32], counter: u64) -> HashId {
+    crate::hashid::ALL_HASHES[(types.len() + (counter % 7) as usize + types[0] as usize) % 6]
+}
 fn hook_leaf_indices(types: &[u32], counter: u64) -> Out<Vec<u32>> {
-    libapi::guard(|| {
-        hbs_lms::verif_hooks::leaf_indices::<hbs_lms::Sha256_256>(types, counter)
+    crate::with_hash!(arith_hash(types, counter), H => libapi::guard(|| {
+        hbs_lms::verif_hooks::leaf_indices::<H>(types, counter)
             .map(|(a, l)| a[..l].to_vec())
             .ok_or(())
-    })
+    }))
 }
 fn hook_increment(types: &[u32], counter: u64, seed: &[u8]) -> Out<Vec<u8>> {
-    libapi::guard(|| {
-        hbs_lms::verif_hooks::increment::<hbs_lms::Sha256_256>(types, counter, seed)
+    crate::with_hash!(arith_hash(types, counter), H => libapi::guard(|| {
+        hbs_lms::verif_hooks::increment::<H>(types, counter, seed)
             .map(|a| a.as_slice().to_vec())
             .ok_or(())
-    })
+    }))
 }
 fn hook_lifetime(types: &[u32], counter: u64) -> Out<u64> {
-    libapi::guard(|| hbs_lms::verif_hooks::lifetime::<hbs_lms::Sha256_256>(types, counter).ok_or(()))
+    crate::with_hash!(arith_hash(types, counter), H => libapi::guard(|| hbs_lms::verif_hooks::lifetime::<H>(types, counter).ok_or(())))
 }
 
 pub fn check_arith(c: &ArithCase) -> Verdict {
     let types: Vec<u32> = c.heights.iter().map(|h| h_to_lms_type(*h)).collect();
     let levels: Vec<Level> = c.heights.iter().map(|h| (8u32, *h)).collect();
     let total: u32 = c.heights.iter().sum();
-    let seed = [0xa7u8; 32];
-    let m = Model::rfc(HashId::Sha256_256);
+    let ah = arith_hash(&types, c.counter);
+    let seed = vec![0xa7u8; ah.n()];
+    let m = Model::rfc(ah);
     let tall = total >= 64;
     let beyond = !tall && (c.counter as u128) >= (1u128 << total);
     let cls = format!("L{}|{}|{}", c.heights.len(), if tall { "total>=64" } else { "total<=63" }, c.counter_class);
@@ -112,7 +118,7 @@ pub fn check_arith(c: &ArithCase) -> Verdict {
     // successor
     let blob = hss::private_key_blob(&levels, c.counter, &seed);
     let last: u64 = if tall { u64::MAX } else { (1u64 << total) - 1 };
-    let want_succ = if c.counter >= last { hss::wiped_blob(32) } else { hss::private_key_blob(&levels, c.counter + 1, &seed) };
+    let want_succ = if c.counter >= last { hss::wiped_blob(ah.n()) } else { hss::private_key_blob(&levels, c.counter + 1, &seed) };
     if !tall {
         // cross-check the model's own successor function
         if hss::successor_blob(&m, &blob).as_deref() != Some(&want_succ[..]) {
